@@ -444,6 +444,14 @@ right; the machinery was corrected, nothing was added to the known findings, no 
   never re-opened the window — the rule now leaves out links with transfers held by a window that is not
   re-opened. (The case was generated because the new `lwatch` branch shifted the random choices; the rule
   had always had that gap.)
+* Fourth session, round 5, found while the new failure `peer-end-then-close` was being written: right after the
+  operations have been started (0 / 1 ms) the session's handles report the connection's stop instead of the
+  end's error on the unchanged tree as well — whether the session engine gets to see the end before the
+  connection has gone is the scheduler's choice, and an end without an error yields to the connection's reason
+  by design. The oracle for that failure applies from 50 ms on (engines idle) and to ends that carry an error.
+* Fourth session, a lesson about the machinery: `git add -A` right after a queue of seeded changes committed
+  `Gen/Fsm.lean` as regenerated under the last change tried (harmless for the checks, which regenerate on
+  every run, but wrong as a record); `tools/seeded_try.sh` now regenerates after it has undone a change.
 * Fourth session, a lesson about the machinery: a `pkill` meant for a build of the working copy also killed
   the build of the queue that was trying seeded change C02-d2; the change was first recorded as caught
   ("harness-build") and not confirmed. It was re-confirmed in a clean clone and re-tried on a quiet tree (it
@@ -493,6 +501,13 @@ they are listed in §8 with the property whose check found them.
   stricter than the implementation on damaged input (counted in the evidence, as for C03). The section
   counting of `IncompleteTransfer::append` (section-number / section-offset of the `received` state) is not
   modelled. `Amqp.Dispose` starts after the sort and the filter of `dispose_all` (the runs apply both).
+* Two seeded changes of the short fifth round are NOT caught (§9, "Not caught"), both for C10 and both on
+  paths the reassembly check does not reach: an aborted transfer in the middle of a transactional
+  multi-frame post (the listener's `TxnSession` keeps the earlier frames and replays them at commit), and a
+  multi-frame delivery sent with `resume = true` after a real detach-and-resume whose last frame omits the
+  delivery-tag (`on_resuming_transfer`). The reassembly model and its runs cover deliveries on a link that
+  is attached once and posts outside transactions; scripted transactional posts never abort and no run
+  resumes a receiver with a non-empty unsettled map. These are the next scenarios to write.
 * The typed layer models the 32 list-encoded composites, the unions built from them, and messages
   (`Amqp/Message.lean`: sections in the order of the standard, the three body kinds, batches of data
   and amqp-sequence sections; `message_roundtrip`). `Body::Empty` is not a body of the AMQP type
